@@ -349,7 +349,9 @@ CLAIMS: dict[str, tuple[str, str, str, str]] = {
         "whole documents (driver `fullparser`: tokens, children, and the env entries recorded). Props/C16b.lean: reference_shape / reference_contract (for every "
         "call the loop can make the rule returns — K1 —, a miss leaves state.line, tokens and both tables alone — K2 —, the frame is restored — K4 —, a match "
         "moves state.line forward and records exactly one entry), reference_records_valid; Props/C16c.lean: the two tables are handed on untouched by every "
-        "other rule, loop, terminator chain and container (keeps_*, blockLoop_keeps), hence rParse_refsValid / C05.fullR_hrefs for the ten-rule chain. Not "
+        "other rule, loop, terminator chain and container (keeps_*, blockLoop_keeps), hence rParse_refsValid / C05.fullR_hrefs for the ten-rule chain; Props/C16d.lean "
+        "rParse_first_wins: the table a parse fills holds pairwise distinct labels, none already resolved by the seeded env — the first definition wins, later ones "
+        "go to duplicate_refs, a seeded entry is never shadowed (end to end for the block parse, by the same generic invariant engine). Not "
         "proved: the upper bound of K3 (state.line <= lineMax) for this rule — it needs 'no line text holds a line feed', which the engine's call context "
         "does not carry — so totality / well-formedness / staging theorems stay on the nine-rule chains. "
         "MISSING: 'parse(D, env after R) = parse(R+D)' on whole token streams is C07.concat with A := R, and reference "
